@@ -97,7 +97,21 @@ pub fn run(ctx: &Ctx) -> i32 {
                 1 | 2 => (Profile::conforming(), Some(ALL_INJECT[rng.below(ALL_INJECT.len())])),
                 _ => (Profile::wild_surface(), None),
             };
-            let g = gen::generate(&mut rng, &prof, inject);
+            let mut g = gen::generate(&mut rng, &prof, inject);
+            if k % 5 == 4 {
+                // hand-written shapes: several labels on one entry, shared tails, trap handlers,
+                // programs the analysis refuses (the error is a diagnostic like any other)
+                let mut pool = crate::shapes::call_graph_shapes(&mut rng);
+                pool.extend(crate::shapes::failure_shapes(&mut rng));
+                pool.push(crate::shapes::shared_tail_family(&mut rng));
+                pool.push(crate::shapes::trap_handler_family(&mut rng));
+                let i = rng.below(pool.len());
+                acc.note("shapes", pool[i].name);
+                g.prog = pool.swap_remove(i).prog;
+                g.base = g.prog.clone();
+                g.site = None;
+                g.funcs.clear();
+            }
             let st = Style::plain();
             let c0 = Case { printed: print(&g.prog, &st, &mut Rng::new(1)), g: g.clone() };
             let Ok(a0) = analyze(&c0.printed.text) else {
@@ -148,6 +162,15 @@ pub fn run(ctx: &Ctx) -> i32 {
                             n += 1;
                             labelmap.insert(s.clone(), fresh_label(&mut rng, n));
                         }
+                    }
+                    // one label may get a name that looks like something the analyzer uses itself
+                    if rng.chance(0.25) {
+                        let keys: Vec<String> = { let mut k: Vec<String> = labelmap.keys().cloned().collect(); k.sort(); k };
+                        let fns: Vec<&String> = keys.iter().filter(|k| k.starts_with("fn_")).collect();
+                        let pick = if !fns.is_empty() && rng.chance(0.7) { fns[rng.below(fns.len())].clone() } else { keys[rng.below(keys.len())].clone() };
+                        let odd = *rng.pick(&["__return__", "__return__", "return", "_start", "L0", "ret_", "a0_"]);
+                        labelmap.insert(pick, odd.to_string());
+                        acc.count("renamings_with_a_reserved_looking_name", 1);
                     }
                 }
                 let p1 = rename_program(&g.prog, &regmap, &labelmap);
